@@ -728,7 +728,23 @@ func (g *FuncGen) loopSpec() (*LoopSpec, int) {
 	ord := g.loopOrd
 	g.loopOrd++
 	if g.F.Spec != nil {
-		if ls, ok := g.F.Spec.Loops[ord]; ok {
+		ls, ok := g.F.Spec.Loops[ord]
+		if len(g.F.Spec.AllInv) > 0 {
+			merged := &LoopSpec{}
+			for i, c := range g.F.Spec.AllInv {
+				cc := *c
+				if cc.Label == "" {
+					cc.Label = fmt.Sprintf("all%d", i)
+				}
+				merged.Invariants = append(merged.Invariants, &cc)
+			}
+			if ok {
+				merged.Invariants = append(merged.Invariants, ls.Invariants...)
+				merged.Decreases = ls.Decreases
+			}
+			return merged, ord
+		}
+		if ok {
 			return ls, ord
 		}
 	}
